@@ -240,6 +240,19 @@ func normalise(t *Term) *Term {
 		if y.Op == "ite" && eqT(y.Args[0], c) {
 			return T("ite", t.S, c, x, y.Args[2])
 		}
+		// each branch is simplified under the condition that selects it
+		if c.Op != "const" {
+			ck := c.Key()
+			mentions := func(z *Term) bool {
+				return z.contains(func(q *Term) bool { return q.Op != "loop" && q.Key() == ck })
+			}
+			if mentions(x) || mentions(y) {
+				nx, ny := assume(x, c, true), assume(y, c, false)
+				if !eqT(nx, x) || !eqT(ny, y) {
+					return T("ite", t.S, c, nx, ny)
+				}
+			}
+		}
 	case "proj":
 		a := t.Args[0]
 		var idx int
@@ -263,7 +276,16 @@ func normalise(t *Term) *Term {
 					return fv.Args[0]
 				}
 			}
-			// absent field: zero value, resolved by the caller (needs the type)
+			// absent field: its zero value, from the type recorded in the field id ("<type>#k")
+			if i := strings.LastIndex(t.S, "#"); i > 0 {
+				tn := t.S[:i]
+				if tn == "bool" {
+					return cBool(false)
+				}
+				if _, isInt := intWidth[tn]; isInt {
+					return cInt(0, tn)
+				}
+			}
 		}
 		if a.Op == "ite" {
 			return T("ite", "", a.Args[0], (&Term{Op: "fld", S: t.S, Args: []*Term{a.Args[1]}, Hint: t.Hint, Obj: t.Obj}).renorm(), (&Term{Op: "fld", S: t.S, Args: []*Term{a.Args[2]}, Hint: t.Hint, Obj: t.Obj}).renorm())
@@ -354,6 +376,18 @@ func normalise(t *Term) *Term {
 		m, k := t.Args[0], t.Args[1]
 		if m.Op == "mapset" && eqT(m.Args[1], k) {
 			return T("tuple", "", m.Args[2], cBool(true))
+		}
+	}
+	if (t.Op == "eq" || t.Op == "ne") && len(t.Args) == 2 {
+		a, b := t.Args[0], t.Args[1]
+		if eqT(a, b) {
+			return cBool(t.Op == "eq")
+		}
+		for i := 0; i < 2; i++ {
+			p, q := t.Args[i], t.Args[1-i]
+			if p.Op == "ite" && (q.Op == "nil" || q.Op == "const") {
+				return T("ite", "", p.Args[0], T(t.Op, t.S, p.Args[1], q), T(t.Op, t.S, p.Args[2], q))
+			}
 		}
 	}
 	// arithmetic on constants, identities
